@@ -1,4 +1,4 @@
-import JunoModel.C04.ProofsReach
+import JunoModel.C04.ProofsBC
 /-!
 C04 — reverting the head exactly undoes a block; forks converge.
 
@@ -102,6 +102,79 @@ theorem state_revert_update_new (cfg : Cfg) (hleg : cfg.legacy = false)
     (ok : NewOK cfg s casm' b) (h : updateState cfg b s = .ok s') :
     revertState cfg b.number b.ver ⟨b.diff, b.oldRoot, b.newRoot⟩ casm' s' = .ok s :=
   new_revert_update hleg ok h
+
+/-! ### The process around the database (round 5): restarts, snapshot, window cache, event queries
+
+`BC` (ModelBC.lean) is one `Blockchain` instance on its database: the lazily initialised running filter
+(`ensureInit` / `Reset` / `InitializeRunningEventFilter` with its three branches: snapshot as it is,
+snapshot filled in place, rebuild from the persisted windows), the snapshot bucket written at shutdown
+and deleted by `onReorg`, and `blockchain.AggregatedBloomFilterCache` with its reset in `RevertHead`
+(modelled without capacity; `evict` stands for any eviction policy). -/
+
+/-- A restart is a no-op on every reachable node: `InitializeRunningEventFilter` recomputes from the
+database exactly the running filter the process had in memory and leaves the persisted windows as they
+are — without a snapshot (rebuild from the most recent persisted window) and with any snapshot the
+database can hold (`SnapOK`: the running filter of an earlier moment of this chain; every `RevertHead`
+deletes the snapshot), whichever branch runs, also when filling the snapshot completes a window. Hence
+"a failing operation leaves the node unchanged" (`step`) is what `resetFilterOnError` + lazy
+re-initialisation implement. -/
+theorem restart_is_noop (cfg : Cfg) (hc : cfg.asFound) (nd : Node) (g : Good cfg nd) (snap : Option Filter)
+    (so : SnapOK cfg nd snap) : initFilter cfg nd snap = .ok (nd.running, nd.persisted) :=
+  init_eq (good_inv hc g) (good_RestartInv hc g) so
+
+/-- Per process history: whatever sequence of `Store`, `RevertHead`, event queries, graceful shutdowns,
+kills (restarts) and cache evictions a process and its successors run on one database from the empty
+node, the node they leave (once the lazy filter is initialised again) is the node of the stores and
+reverts alone — which by `history_equals_net_chain` is the node that stored only the surviving chain. -/
+theorem process_history_is_node_history (cfg : Cfg) (hc : cfg.asFound) (ops : List BCOp)
+    (ok : HistOK cfg Node.init (nodeOps ops)) :
+    ensureHot cfg (BC.run cfg BC.init ops) =
+      .ok { BC.run cfg BC.init ops with nd := run cfg Node.init (nodeOps ops), hot := true } ∧
+    storeAll cfg Node.init (net cfg (nodeOps ops)) = .ok (run cfg Node.init (nodeOps ops)) := by
+  have i := bc_run_inv hc ops BC.init Node.init (init_BCInv cfg) (bcHistOK_of_histOK cfg ops _ ok)
+  rw [absRun_eq] at i
+  exact ⟨ensureHot_inv hc i, history_equals_net_chain cfg hc (nodeOps ops) ok⟩
+
+/-- Event queries see exactly the surviving chain: after any process history, a query over `[lo, hi]` up to
+the head succeeds and, for every block of the range, its candidate list holds exactly the non-empty bloom
+of that block's header on the node of the stores and reverts alone — no stale cached window, no stale
+running filter, whether the window was served by the running filter, the cache or the database. -/
+theorem event_query_sees_the_surviving_chain (cfg : Cfg) (hc : cfg.asFound) (ops : List BCOp)
+    (ok : HistOK cfg Node.init (nodeOps ops)) (latest lo hi : Nat)
+    (hh : (run cfg Node.init (nodeOps ops)).height = some latest) (hlo : lo ≤ hi) (hhi : hi ≤ latest) :
+    ∃ ans bc', BC.query cfg (BC.run cfg BC.init ops) lo hi = .ok (ans, bc') ∧
+      ∀ m, lo ≤ m → m ≤ hi → Map.get ans m = nzBloom (Map.get (run cfg Node.init (nodeOps ops)).headers m) := by
+  have i := bc_run_inv hc ops BC.init Node.init (init_BCInv cfg) (bcHistOK_of_histOK cfg ops _ ok)
+  rw [absRun_eq] at i
+  obtain ⟨ans, bc', hq, _, hget⟩ := query_spec hc i hh hlo hhi
+  exact ⟨ans, bc', hq, hget⟩
+
+/-- Forks converge for event queries too: two process histories (any restarts, queries, evictions on the
+way) that leave the same chain behind answer every event query with the same candidates. -/
+theorem fork_event_queries_agree (cfg : Cfg) (hc : cfg.asFound) (ops1 ops2 : List BCOp)
+    (ok1 : HistOK cfg Node.init (nodeOps ops1)) (ok2 : HistOK cfg Node.init (nodeOps ops2))
+    (h : net cfg (nodeOps ops1) = net cfg (nodeOps ops2)) (latest lo hi : Nat)
+    (hh : (run cfg Node.init (nodeOps ops1)).height = some latest) (hlo : lo ≤ hi) (hhi : hi ≤ latest) :
+    ∃ a1 b1 a2 b2, BC.query cfg (BC.run cfg BC.init ops1) lo hi = .ok (a1, b1) ∧
+      BC.query cfg (BC.run cfg BC.init ops2) lo hi = .ok (a2, b2) ∧
+      ∀ m, lo ≤ m → m ≤ hi → Map.get a1 m = Map.get a2 m := by
+  have e := same_net_chain_same_node cfg hc _ _ ok1 ok2 h
+  obtain ⟨a1, b1, q1, g1⟩ := event_query_sees_the_surviving_chain cfg hc ops1 ok1 latest lo hi hh hlo hhi
+  obtain ⟨a2, b2, q2, g2⟩ := event_query_sees_the_surviving_chain cfg hc ops2 ok2 latest lo hi (e ▸ hh) hlo hhi
+  exact ⟨a1, b1, a2, b2, q1, q2, fun m h1 h2 => by rw [g1 m h1 h2, g2 m h1 h2, e]⟩
+
+/-- The store-time guards of the CASM metadata (`storeCasmHashMetadataV2` / `Migrate`): a block from
+0.14.1 on that `Store` accepted migrates only classes that have metadata, were declared with a V1 hash
+strictly below this block, are NOT migrated yet and are not declared by the same block — so that
+`Unmigrate` in `RevertHead` finds them migrated by this very block (`revert_total` is over nodes whose
+blocks all passed these guards). A second migration of a class is refused: `second_migration_refused`. -/
+theorem stored_migration_guarded (cfg : Cfg) (nd nd' : Node) (b : Block) (hv : b.ver ≥ 2)
+    (hs : Sorted nd.casm) (hsd : Sorted b.diff.declV1) (hsm : Sorted b.diff.migrated)
+    (h : store cfg nd b = .ok nd') :
+    ∀ c y, Map.get b.diff.migrated c = some y →
+      ∃ md, Map.get nd.casm c = some md ∧ md.migratedAt = 0 ∧ md.v1.isSome = true ∧ md.declaredAt < b.number ∧
+        Map.get b.diff.declV1 c = none :=
+  storeCasm_guard b.number hv hs hsd hsm (store_casm_of_ok h)
 
 /-! ### Witnesses: where the full-strength statement is false of the code as found
 
@@ -390,6 +463,96 @@ example : revert newCfg n2_new = .ok (n1 newCfg) :=
 -- and the node really changed: the migration, the replaced class and the L1 message are there
 example : (Map.get n2_new.casm 0xd1).map (·.migratedAt) = some 1 ∧ Map.get n2_new.l1msg 0x9a = some 0x78 ∧
     (Map.get n2_new.st.contracts 0x104).map (·.classHash) = some 0xd1 ∧ Map.get n2_new.st.storage (0x104, 1) = none := by
+  decide
+
+/-! ### Round 5: witnesses and non-vacuity for the process-level theorems -/
+
+def blk2 (n h p : Nat) (d : Diff) : Block := { blk n h p d with ver := 2 }
+
+/-- `Store` refuses a block that lists an already migrated class as migrated again (both backends), and a
+migration of a class declared with the V2 hash; the first migration is stored and reverted exactly. -/
+theorem second_migration_refused :
+    failsWith (fstoreAll legacyCfg Node.init
+      [{ blk 0 10 0 { Diff.empty with declV1 := [(0xd1, 0xe1)] } with classes := [(0xd1, ⟨true, 0xe2⟩)] },
+       blk2 1 11 10 { Diff.empty with migrated := [(0xd1, 0xe2)] },
+       blk2 2 12 11 { Diff.empty with migrated := [(0xd1, 0xe2)] }]) .casm = true ∧
+    failsWith (fstoreAll newCfg Node.init
+      [{ blk 0 10 0 { Diff.empty with declV1 := [(0xd1, 0xe1)] } with classes := [(0xd1, ⟨true, 0xe2⟩)] },
+       blk2 1 11 10 { Diff.empty with migrated := [(0xd1, 0xe2)] },
+       blk2 2 12 11 { Diff.empty with migrated := [(0xd1, 0xe2)] }]) .casm = true ∧
+    failsWith (fstoreAll newCfg Node.init
+      [{ blk2 0 10 0 { Diff.empty with declV1 := [(0xd1, 0xe2)] } with classes := [(0xd1, ⟨true, 0xe2⟩)] },
+       blk2 1 11 10 { Diff.empty with migrated := [(0xd1, 0xe2)] }]) .casm = true ∧
+    sameNode (thenRevert newCfg (fstoreAll newCfg Node.init
+      [{ blk 0 10 0 { Diff.empty with declV1 := [(0xd1, 0xe1)] } with classes := [(0xd1, ⟨true, 0xe2⟩)] },
+       blk2 1 11 10 { Diff.empty with migrated := [(0xd1, 0xe2)] }]))
+      (fstoreAll newCfg Node.init
+      [{ blk 0 10 0 { Diff.empty with declV1 := [(0xd1, 0xe1)] } with classes := [(0xd1, ⟨true, 0xe2⟩)] }]) = true := by
+  decide
+
+/-- Since fecbdb1 a Sierra declaration without its definition is refused from 0.14.1 on as well (before
+it the block was stored and overwrote the metadata of a known class). -/
+theorem declaration_without_definition_refused :
+    failsWith (fstoreAll legacyCfg Node.init [blk2 0 10 0 { Diff.empty with declV1 := [(0xd1, 0xe2)] }]) .casm = true ∧
+    failsWith (fstoreAll newCfg Node.init [blk 0 10 0 { Diff.empty with declV1 := [(0xd1, 0xe1)] }]) .casm = true := by
+  decide
+
+/-- the closed-form base image of the harness is what storing the blocks one by one gives (here a chain
+that completes a window of 4 and one that does not) -/
+example : sameNode (storeAll legacyCfg Node.init (plainChain 1 0 0 [30, 11, 25, 13, 9, 40, 7, 8, 50]))
+    (.ok (bulkNode legacyCfg 1 [30, 11, 25, 13, 9, 40, 7, 8, 50])) = true := by decide
+example : sameNode (storeAll newCfg Node.init (plainChain 1 0 0 [30, 11, 25])) (.ok (bulkNode newCfg 1 [30, 11, 25])) = true := by
+  decide
+
+/-- a snapshot the database can hold: the running filter itself -/
+theorem snapOK_running (cfg : Cfg) (hc : cfg.asFound) (nd : Node) (g : Good cfg nd) : SnapOK cfg nd (some nd.running) := by
+  intro s hs
+  simp only [Option.some.injEq] at hs
+  subst hs
+  obtain ⟨rr, rn⟩ := running_FRel (good_inv hc g) (good_RestartInv hc g)
+  exact ⟨by rw [rn]; exact Nat.le_refl _, rr⟩
+
+-- `restart_is_noop` instantiated on the node n2 above, without and with a snapshot
+example : initFilter legacyCfg n2_legacy none = .ok (n2_legacy.running, n2_legacy.persisted) :=
+  restart_is_noop legacyCfg ⟨by decide, fun _ => ⟨rfl, rfl, rfl⟩⟩ n2_legacy
+    (.store n1_good_legacy (storeOK_withRoots e1_storeOK_legacy) n2_stored_legacy) none (fun s h => by cases h)
+example : initFilter newCfg n2_new (some n2_new.running) = .ok (n2_new.running, n2_new.persisted) :=
+  restart_is_noop newCfg ⟨by decide, fun h => by cases h⟩ n2_new
+    (.store n1_good_new (storeOK_withRoots e1_storeOK_new) n2_stored_new) _
+    (snapOK_running newCfg ⟨by decide, fun h => by cases h⟩ n2_new (.store n1_good_new (storeOK_withRoots e1_storeOK_new) n2_stored_new))
+
+/-- a process history with a graceful restart, a kill, queries, a revert: its stores are acceptable, so
+the process-level theorems apply to it -/
+def procOps : List BCOp :=
+  [.store (withRoots legacyCfg Node.init e0), .query 0 0, .shutdown, .kill,
+   .store (withRoots legacyCfg (n1 legacyCfg) e1), .query 0 1, .kill, .revert, .query 0 0, .evict 0]
+
+private theorem procOps_ok : HistOK legacyCfg Node.init (nodeOps procOps) := by
+  have s0 : step legacyCfg Node.init (.store (withRoots legacyCfg Node.init e0)) = n1 legacyCfg := by
+    simp [step, n1_stored_legacy]
+  have s1 : step legacyCfg (n1 legacyCfg) (.store (withRoots legacyCfg (n1 legacyCfg) e1)) = n2_legacy := by
+    simp [step, n2_stored_legacy]
+  refine ⟨fun _ _ => storeOK_withRoots (e0_storeOK legacyCfg rfl), ?_⟩
+  rw [s0]
+  refine ⟨fun _ _ => storeOK_withRoots e1_storeOK_legacy, ?_⟩
+  rw [s1]
+  trivial
+
+example : ∃ ans bc', BC.query legacyCfg (BC.run legacyCfg BC.init procOps) 0 0 = .ok (ans, bc') ∧
+    ∀ m, 0 ≤ m → m ≤ 0 → Map.get ans m = nzBloom (Map.get (run legacyCfg Node.init (nodeOps procOps)).headers m) :=
+  event_query_sees_the_surviving_chain legacyCfg ⟨by decide, fun _ => ⟨rfl, rfl, rfl⟩⟩ procOps procOps_ok 0 0 0
+    (by decide) (Nat.le_refl _) (Nat.le_refl _)
+
+-- the cache matters in the model: a window served from the cache, the running filter reopening it after a
+-- revert, and the answer after the fork (window of 4 blocks; blooms 5, 7, 8 / 9, then 6 for the new block 3)
+def bb (n h p bloom : Nat) : Block := { blk n h p Diff.empty with bloom := bloom }
+def cacheOps : List BCOp :=
+  [.store (bb 0 10 0 5), .store (bb 1 11 10 0), .store (bb 2 12 11 7), .store (bb 3 13 12 8), .store (bb 4 14 13 9),
+   .query 0 4, .revert, .revert, .store (bb 3 23 12 6), .query 0 3]
+example : (BC.run legacyCfg BC.init (cacheOps.take 6)).cache = [(0, [(0, 5), (2, 7), (3, 8)])] ∧
+    (BC.run legacyCfg BC.init (cacheOps.take 8)).cache = [] ∧
+    (match BC.query legacyCfg (BC.run legacyCfg BC.init (cacheOps.take 9)) 0 3 with
+     | .ok r => r.1 | .error _ => []) = [(0, 5), (2, 7), (3, 6)] := by
   decide
 
 end Juno.C04.Props
